@@ -37,3 +37,56 @@ def parse_full(parsers_module, source, must_be_on_current_line=False):
 def str_source(contents, env):
     from exactly_lib.impls.types.string_source import constant_str
     return constant_str.string_source(contents, env.tmp_files_space)
+
+
+# ---------------------------------------------------------------------------------------------
+# The main program, in process
+# ---------------------------------------------------------------------------------------------
+def main_program(sandbox_root, mem_buff_size=None):
+    """A MainProgram exactly like default_main_program() but creating sandboxes under sandbox_root."""
+    import io
+    from exactly_lib.cli import main_program as mp
+    from exactly_lib.cli.test_case_def import TestCaseDefinitionForMainProgram
+    from exactly_lib.cli_default.program_modes import test_suite
+    from exactly_lib.cli_default.program_modes.test_case import builtin_symbols, default_instructions_setup, \
+        test_case_handling_setup
+    from exactly_lib.common import instruction_name_and_argument_splitter
+    from exactly_lib.processing.instruction_setup import TestCaseParsingSetup
+    from exactly_lib.processing.parse.act_phase_source_parser import ActPhaseParser
+
+    def mk():
+        return tempfile.mkdtemp(prefix='exactly-', dir=sandbox_root)
+
+    return mp.MainProgram(test_case_handling_setup.setup(), mk,
+                          TestCaseDefinitionForMainProgram(
+                              TestCaseParsingSetup(instruction_name_and_argument_splitter.splitter,
+                                                   default_instructions_setup.INSTRUCTIONS_SETUP,
+                                                   ActPhaseParser()),
+                              builtin_symbols.ALL),
+                          test_suite.test_suite_definition(),
+                          io.DEFAULT_BUFFER_SIZE if mem_buff_size is None else mem_buff_size)
+
+
+class ProgramRun:
+    def __init__(self, exit_code, out, err, exception=None):
+        self.exit_code, self.out, self.err, self.exception = exit_code, out, err, exception
+
+
+def run_main(mp, argv, cwd, scratch):
+    """Run MainProgram.execute(argv) with real files as stdout/stderr, in directory cwd."""
+    from exactly_lib.util.file_utils.std import StdOutputFiles
+    po, pe = os.path.join(scratch, 'stdout.txt'), os.path.join(scratch, 'stderr.txt')
+    old = os.getcwd()
+    exc = None
+    code = None
+    with open(po, 'w') as fo, open(pe, 'w') as fe:
+        try:
+            os.chdir(cwd)
+            code = mp.execute(list(argv), StdOutputFiles(fo, fe))
+        except BaseException as ex:  # an escaping exception is an observation, not a harness error
+            if isinstance(ex, KeyboardInterrupt):
+                raise
+            exc = ex
+        finally:
+            os.chdir(old)
+    return ProgramRun(code, open(po, errors='replace').read(), open(pe, errors='replace').read(), exc)
